@@ -755,8 +755,8 @@ Proof.
       destruct (t_ty t =? TFee) eqn:E.
       - rewrite (Hfeefrom t Ht E). reflexivity.
       - destruct (plain_tx_no_bound t (G1 t Ht)) as [Hb _].
-        apply filter_ext_in. intros s Hs. unfold pos, valuable. rewrite (Hb s Hs). cbn [negb].
-        rewrite andb_true_r. destruct (s_amt s) eqn:Ea; reflexivity. }
+        apply filter_ext_in. intros s Hs. unfold pos, valuable.
+        destruct (s_amt s) eqn:Ea; reflexivity. }
     apply H. auto. }
   assert (Hndins : NoDup (filter pos (ins txs))) by (rewrite Hswept; exact Hndsw).
   assert (Houts_new : forall x, In x (outs txs) -> 0 < s_amt x -> ~ In x u).
